@@ -20,7 +20,9 @@ EXPLANATION = (
     "wrapped/frozen chunks and alias same-coordinate keys over exactly that grid; R03.4 the collection's "
     "shape/chunks/dtype/numblocks/ndim delegate to the raw expression; R03.6 sibling agreement inside one node class: an operand that "
     "several members read only through sorted(...) (an unordered set of axes: ExpandDims.axes today, discovered on every run) is never "
-    "consumed in its given order by another member - chunks, _layer, _meta and the rewrites must enumerate the axes alike. Per-operation chunk formulas, dtype inference "
+    "consumed in its given order by another member - chunks, _layer, _meta and the rewrites must enumerate the axes alike; R03.7 the grid "
+    "contract that lets a rewrite change an interior node's block structure only when nobody above observes it is transitive (a consumer "
+    "holding a per-block literal is protected at any distance, not only as a direct dependent). Per-operation chunk formulas, dtype inference "
     "and the sizes of computed blocks are arithmetic/values and are not decided."
 )
 ASSUMPTIONS = [
@@ -387,7 +389,56 @@ def r03_6(ctx):
     return rr
 
 
-RULES = [r03_1, r03_2, r03_3, r03_4, r03_5, r03_6]
+def r03_7(ctx):
+    rr = RuleResult(
+        "R03.7", "PASS",
+        "the grid contract is transitive: ArrayExpr._has_grid_sensitive_dependent asks the question again for every dependent that does not itself observe the grid (an elementwise op, a slice, a transpose pass their input's block grid on to whoever holds a per-block literal above them)",
+        min_instances=2,
+    )
+    ae = ctx.repo.mod("dask_array._expr").cls("ArrayExpr")
+    f = ae.methods.get("_has_grid_sensitive_dependent")
+    need(f is not None, "ArrayExpr._has_grid_sensitive_dependent")
+    # the loop over the direct dependents
+    loops = [n for n in body_walk(f.node) if isinstance(n, (ast.For, ast.While))]
+    need(loops, "the loop over dependents in _has_grid_sensitive_dependent")
+    direct = [c for c in ast.walk(f.node) if isinstance(c, ast.Call) and ("requires" in unparse(c.func) or "_requires_grid_preservation" in unparse(c.func)) and c.args]
+    rr.inst(site(f) + "::direct observers", asked=bool(direct))
+    if not direct:
+        ctx.finding(rr, site(f) + "::direct observers", "_has_grid_sensitive_dependent no longer asks a dependent whether it observes the grid (_requires_grid_preservation)", func=f)
+    # transitivity: a self-recursive call on the dependent node, or a worklist that receives it
+    node_names = set()
+    for lp in loops:
+        if isinstance(lp, ast.For):
+            node_names |= {x.id for x in ast.walk(lp.target) if isinstance(x, ast.Name)}
+        for s_ in ast.walk(lp):
+            if isinstance(s_, ast.Assign) and isinstance(s_.value, ast.Call) and not s_.value.args and len(s_.targets) == 1 and isinstance(s_.targets[0], ast.Name):
+                node_names.add(s_.targets[0].id)  # node = ref()
+    rec = [c for c in ast.walk(f.node) if isinstance(c, ast.Call) and unparse(c.func).endswith("_has_grid_sensitive_dependent") and c.args and isinstance(c.args[0], ast.Name) and c.args[0].id in node_names]
+    work = [c for lp in loops if isinstance(lp, ast.While) for c in ast.walk(lp) if isinstance(c, ast.Call) and isinstance(c.func, ast.Attribute) and c.func.attr in ("append", "extend", "add", "appendleft") and any(isinstance(x, ast.Name) and x.id in node_names for a in c.args for x in ast.walk(a))]
+    rr.inst(site(f) + "::transitive", recursive_calls=len(rec), worklist_pushes=len(work))
+    if not rec and not work:
+        ctx.finding(
+            rr, site(f) + "::transitive",
+            "_has_grid_sensitive_dependent looks at direct dependents only: a consumer that holds a per-block literal (map_blocks(chunks=...), repeat, block_info payloads) two or more nodes above a rewrite is not seen, "
+            "the rewrite changes the block structure underneath it, and a computable program raises at optimization (e.g. da.repeat(abs(da.take(x + y, ix)), 2) with x and y chunked differently)",
+            func=f,
+        )
+    for c in rec:
+        # the recursive answer must be able to make the result True
+        st = c
+        par = {}
+        for p_ in ast.walk(f.node):
+            for ch in ast.iter_child_nodes(p_):
+                par[ch] = p_
+        while st in par and not isinstance(st, ast.stmt):
+            st = par[st]
+        ok = isinstance(st, ast.If) and any(isinstance(r, ast.Return) and isinstance(r.value, ast.Constant) and r.value.value is True for r in ast.walk(st)) or (isinstance(st, ast.Return))
+        if not ok:
+            ctx.finding(rr, site(f, st)[:170], "the recursive grid-sensitivity answer is computed but does not decide the result", func=f, node=st)
+    return rr
+
+
+RULES = [r03_1, r03_2, r03_3, r03_4, r03_5, r03_6, r03_7]
 
 LEVEL_TEXT = (
     "Static decision of the layout-barrier clause of C03 ('even when optimization internally chose a different block "
